@@ -358,6 +358,15 @@ func c01EndPaths(c *core.Ctx, rule string, withR7 bool) {
 			}
 		})
 		c.Check(rule, "reset-deletes-own", fn.Pos(), good, "RemoteNode.Reset deletes every session of the node's own SEID set (and only those)")
+		// only the association handler resets a node
+		reset := p.Method(pkgPfcp, "RemoteNode", "Reset")
+		for _, f2 := range p.OwnFuncs() {
+			for _, ci := range core.Calls(f2, reset) {
+				n := f2.Name()
+				c.Check(rule, "reset-caller:"+core.FnName(f2), ci.Pos(), n == "handleAssociationSetupRequest",
+					"RemoteNode.Reset (removes every session of a node) runs only on re-association of that node")
+			}
+		}
 	}
 	// association handler: found node is Reset before the table entry is replaced
 	rnodes := p.Field(pkgPfcp, "PfcpServer", "rnodes")
@@ -485,6 +494,7 @@ func c01EndPaths(c *core.Ctx, rule string, withR7 bool) {
 			}
 		}
 		c.Check(rule, "seid0-deletes", fn.Pos(), good, "a report response with SEID 0 deletes the session found by (CP SEID, peer), through its node, by that session's own UP SEID")
+		seid0Paths(c, rule, fn, rDel, remoteSess)
 		// and it happens under SEID == 0
 		for _, ci := range core.Calls(fn, rDel) {
 			under := false
@@ -830,4 +840,71 @@ func mentionsPath(v ssa.Value, root ssa.Value, names ...string) bool {
 		}
 	}
 	return false
+}
+
+// seid0Paths: in the report-response handler the SEID test is evaluated on every path before the
+// handler returns, and once SEID == 0 is established every path to a return passes through the
+// deletion or through the failure edge of the (CP SEID, peer) lookup.
+func seid0Paths(c *core.Ctx, rule string, fn *ssa.Function, rDel, remoteSess *types.Func) {
+	var test *ssa.If
+	var cmp *ssa.BinOp
+	core.Instrs(fn, func(in ssa.Instruction) {
+		iff, ok := in.(*ssa.If)
+		if !ok {
+			return
+		}
+		if b, ok := iff.Cond.(*ssa.BinOp); ok && (b.Op == token.EQL || b.Op == token.NEQ) {
+			if k, ok := core.ConstInt(b.Y); ok && k == 0 {
+				if _, fld, ok := core.LoadedField(b.X); ok && fld.Name() == "SEID" && test == nil {
+					test, cmp = iff, b
+				}
+			}
+		}
+	})
+	if test == nil {
+		c.Check(rule, "seid0-tested", fn.Pos(), false, "the report-response handler has no test of the header SEID against 0")
+		return
+	}
+	ok, where := dominatesReturns(test)
+	if !ok {
+		c.Check(rule, "seid0-tested", where, false, "the handler returns on some path before the header SEID was tested: a SEID-0 response on that path does not remove the local session")
+	} else {
+		c.Check(rule, "seid0-tested", test.Pos(), true, "every exit of the handler lies behind the header-SEID test")
+	}
+	zero := test.Block().Succs[0]
+	if cmp.Op == token.NEQ {
+		zero = test.Block().Succs[1]
+	}
+	var dels []ssa.Instruction
+	for _, ci := range core.Calls(fn, rDel) {
+		dels = append(dels, ci.(ssa.Instruction))
+	}
+	var lkErr []ssa.Value
+	for _, ci := range core.Calls(fn, remoteSess) {
+		if v := ci.Value(); v != nil {
+			for _, r := range *v.Referrers() {
+				if ex, ok := r.(*ssa.Extract); ok && ex.Index == 1 {
+					lkErr = append(lkErr, ex)
+				}
+			}
+		}
+	}
+	r := returnAvoiding(zero, func(b *ssa.BasicBlock) bool {
+		for _, d := range dels {
+			if blockHas(b, d) {
+				return true
+			}
+		}
+		for _, e := range lkErr {
+			if core.NilKnownAt(b, e, false) {
+				return true
+			}
+		}
+		return false
+	})
+	pos := test.Pos()
+	if r != nil {
+		pos = r.Pos()
+	}
+	c.Check(rule, "seid0-always-deletes", pos, r == nil, "with header SEID 0 every path to a return deletes the session, except when the (CP SEID, peer) lookup fails")
 }
